@@ -80,6 +80,10 @@ pub fn parse_expression(tokens: &mut TokenStream, id_gen: &mut IdGenerator, diag
 
 WITNESSES = [
     {"match": r"infix\.", "kind": "run", "props": ["C03"],
+     "input": "println(string_repr(2 ** 3 ** 2))\nprintln(string_repr(2 ** 2 ** 3 ** 1))\nprintln(string_repr(100 - 2 ** 3 ** 2))\nprintln(string_repr(2 ** 3 ** 2 - 1 * 2))\nprintln(string_repr(64 / 4 / 2 ** 2 ** 1))\nprintln(string_repr(7 % 4 % 2 + 2 ** 1 ** 5))",
+     "expect": {"stdout": "64\n64\n885842380864\n126\n64\n243"},
+     "note": "every operator, `**` included, groups to the left in a chain"},
+    {"match": r"infix\.", "kind": "run", "props": ["C03"],
      "input": "println(string_repr(0.1 +. 0.2 +. 0.3))\nprintln(string_repr(10000000000000000.0 +. 1.0 +. 1.0))\nprintln(string_repr(0.1 *. 0.2 *. 0.3))\nprintln(string_repr(\"a\" ^ \"b\" ^ \"c\"))\nprintln(string_repr(8 / 4 / 2))",
      "expect": {"stdout": "0.6000000000000001\n10000000000000000.0\n0.006000000000000001\n\"abc\"\n1"},
      "note": "float operators are not associative: a chain must still group to the left"},
